@@ -52,11 +52,11 @@ impl EncryptedSecretParams {
             | S2kParams::Aead { .. }
             | S2kParams::MalleableCfb { .. } => {
                 // 2 octets
-                self.data[self.data.len() - 2..].to_vec()
+                self.data[self.data.len().saturating_sub(2)..].to_vec()
             }
             S2kParams::Cfb { .. } => {
                 // 20 octets SHA1
-                self.data[self.data.len() - 20..].to_vec()
+                self.data[self.data.len().saturating_sub(20)..].to_vec()
             }
         }
     }
